@@ -193,7 +193,11 @@ func (m *Module) Configure(w *engine.World, r *engine.Rand) any {
 	if r.Bool(0.3) {
 		g := &govPool{Lpt: "lpt-1", Start: 2 + int64(r.Intn(8))}
 		life := int64(6 + r.Intn(40))
-		for i, d := range []string{"rwg", "rwh"}[:1+r.Intn(2)] {
+		nr := 1 + r.Intn(2)
+		if nr > int(c.MaxCat) {
+			nr = int(c.MaxCat) // the run's own genesis stays within the limit its parameters state
+		}
+		for i, d := range []string{"rwg", "rwh"}[:nr] {
 			var rate *big.Int
 			if r.Bool(c.SmallMag) {
 				rate = big.NewInt(smalls[r.Intn(len(smalls))])
